@@ -72,14 +72,15 @@ def deep_equal(seq1: Iterable[Any],
             elif value1 is None:
                 return True
             elif isinstance(value1, XPathMap):
-                assert isinstance(value2, XPathMap)
-                return value1 == value2
+                if not isinstance(value2, XPathMap) or value1 != value2:
+                    return False
             elif isinstance(value1, XPathArray):
-                assert isinstance(value2, XPathArray)
-                return value1 == value2
+                if not isinstance(value2, XPathArray) or value1 != value2:
+                    return False
             elif isinstance(value1, XPathNode):
-                assert isinstance(value2, XPathNode)
-                if value1.__class__ != value2.__class__:
+                if not isinstance(value2, XPathNode):
+                    return False
+                elif value1.__class__ != value2.__class__:
                     return False
                 elif isinstance(value1, etree_node_types):
                     assert isinstance(value2, etree_node_types)
